@@ -95,7 +95,16 @@ int main(int argc, char **argv){
           for (int j=0;j<d;j++){ if (g.ll[j] < 0) continue; GridSpec s1 = g; s1.dims = 1; s1.outputs = 0; s1.depth = g.ll[j]; s1.ll.clear(); s1.aw.clear(); if (g.transform){ s1.ta = {g.ta[j]}; s1.tb = {g.tb[j]}; } TasmanianSparseGrid one; makeGrid(one, s1); adm[j] = one.getPoints(); }
           for (auto &p : split(twin.getNeededPoints(), d)){ bool ok = true; for (int j=0;j<d;j++){ if (g.ll[j] < 0) continue; bool in = false; for (double v : adm[j]) if (std::fabs(v - p[j]) < 1e-11) in = true; if (!in) ok = false; } if (ok) want.push_back(p); }
         }
+        // tolerance exactly zero (a class of its own, constructed by the solver): every admissible child of every loaded point is proposed, whatever the
+        // coefficients are (exact zeros after a merge or for a vanishing output included). Oracle: the proposal for a twin with the same points and generic non-zero coefficients.
+        std::vector<Pt> want0; bool zero_tol = (tol == 0.0) && grid.getNumLoaded() > 0 && outs > 0;
+        if (zero_tol){
+          TasmanianSparseGrid twin(grid); int nc = grid.getNumLoaded() * outs; std::vector<double> h(nc); for (int i=0;i<nc;i++) h[i] = 0.3 + 0.01 * (i % 17);
+          twin.setHierarchicalCoefficients(h); twin.setSurplusRefinement(0.0, IO::getTypeRefinementString(nm), output, g.ll); want0 = split(twin.getNeededPoints(), d); std::sort(want0.begin(), want0.end());
+        }
         grid.setSurplusRefinement(tol, IO::getTypeRefinementString(nm), output, g.ll);
+        if (zero_tol){ std::vector<Pt> got0 = split(grid.getNeededPoints(), d); std::sort(got0.begin(), got0.end()); fpsym_note("zero_tolerance_class", (long) want0.size());
+          fpsym_check(got0 == want0, (tag + "tolerance zero proposes every admissible child, also where a coefficient is exactly zero").c_str()); }
         if (exact){ std::vector<Pt> got = split(grid.getNeededPoints(), d); std::sort(got.begin(), got.end()); std::sort(want.begin(), want.end());
           fpsym_check(got == want, (tag + "classic refinement with level limits proposes exactly the admissible children of the unlimited proposal").c_str()); }
       } else if (op == "Sv"){
